@@ -469,6 +469,18 @@ def rule_class_rendering(rep: Report, repo: Repo, rule: str) -> None:
                         lp = o.state.loops.get(nm[1][1])
                         zipped = lp is not None and lp["iter"] == ("call", glob("zip"), (S("params"), S("param_types")), ())
                         ok = zipped and nm[1][2] == 0 and val_t[2] == 1
+                    if not ok and len(nm) > 1:
+                        # for i, t in enumerate(self.param_types): ... self.params[i] ... t      (and the mirror image)
+                        def enum_of(term, fld):
+                            return term[0] == "elem" and o.state.loops.get(term[1]) is not None and \
+                                o.state.loops[term[1]]["iter"] == ("call", glob("enumerate"), (S(fld),), ())
+                        n1 = nm[1]
+                        if n1[0] == "sub" and n1[1] == S("params") and n1[2][0] == "elem" and n1[2][2] == 0 and enum_of(n1[2], "param_types") \
+                                and val_t == ("elem", n1[2][1], 1):
+                            ok = True
+                        if n1[0] == "elem" and n1[2] == 1 and enum_of(n1, "params") and val_t[0] == "sub" and val_t[1] == S("param_types") \
+                                and val_t[2] == ("elem", n1[1], 0):
+                            ok = True
                     rep.check(ok, rule, where(c), f"field({show(name_t)[:40]}, {show(val_t)[:40]})",
                               "a parameter name is paired with a type at another position", witness="cpp_member(f C int str) with params a b")
         # the param/type fields of one parameter are emitted independently: `type` iff the doc has no ':type x:' of its own,
